@@ -689,6 +689,9 @@ func (l *commitLog) Truncate(offset int64) error {
 		segments[idx] = newSegment
 	}
 	activeSegment := segments[len(segments)-1]
+	// The new active segment is still sealed if the offset was not in the
+	// former active segment.
+	activeSegment.Unseal()
 	atomic.StorePointer((*unsafe.Pointer)(unsafe.Pointer(&l.vActiveSegment)),
 		unsafe.Pointer(activeSegment))
 	l.segments = segments
